@@ -286,6 +286,10 @@ impl ShmReader {
             #[cfg(aws_clock_bound_verif)]
             let snapshot = unsafe { verif_rt::shm::read_record(self.ceb_shm) };
 
+            // An acquire *load* only orders what follows it. This fence keeps the record reads
+            // above from being satisfied after the generation re-check below.
+            atomic::fence(atomic::Ordering::Acquire);
+
             // Confirm no update occurred during the read
             let second_gen = generation.load(atomic::Ordering::Acquire);
             if first_gen == second_gen {
